@@ -170,6 +170,8 @@ type nrInputs struct {
 	stale               bool // nothing measured within the degrade time (includes absent)
 	absent              bool // the NodeMetric object did not exist when the reconcile looked it up
 	capacity, reserved  nrRes
+	kubeRes             nrRes  // the kubelet's part of the reservation (capacity - allocatable)
+	annoPolicy          string // applyPolicy of the reservation annotation the reconcile read ("-" = no annotation)
 	sysRaw, hostHP, sys nrRes
 	cons                []nrConsumer
 }
@@ -192,9 +194,13 @@ func (s *nrSim) inputs(c *nrCapture, eff nrEff, zones int) *nrInputs {
 	alloc := nrRL(node.Status.Allocatable)
 	kube := nrRes{nrMax0(in.capacity.cpu - alloc.cpu), nrMax0(in.capacity.mem - alloc.mem)}
 	var anno nrRes
+	in.kubeRes, in.annoPolicy = kube, "-"
 	if a := node.Annotations[extension.AnnotationNodeReservation]; a != "" {
 		var nr extension.NodeReservation
 		if json.Unmarshal([]byte(a), &nr) == nil {
+			// applyPolicy is deliberately not looked at: it says how the reserved CPUs are exposed (trim the schedulable
+			// amount or leave that to the kubelet), not how much is reserved; reserved amounts are never promised
+			in.annoPolicy = string(nr.ApplyPolicy)
 			anno = nrRL(nr.Resources)
 			if nr.ReservedCPUs != "" {
 				var lo, hi int64
@@ -288,6 +294,7 @@ func nrTerm(c *nrConsumer, pol string, cpu bool) int64 {
 type nrBound struct {
 	capv, margin, sysOrRes, hp         int64
 	noMetric, dangling, host, sysExtra int64
+	annoExtra                          int64 // what the reservation annotation adds over max(system usage, kubelet reservation)
 	bound                              int64
 	pol                                string
 	pct                                *int64
@@ -295,14 +302,17 @@ type nrBound struct {
 
 func (in *nrInputs) nodeBound(cpu bool) nrBound {
 	b := nrBound{}
-	var reclaim, sys, res, host int64
+	var reclaim, sys, res, host, kube int64
 	if cpu {
 		b.capv, reclaim, sys, res, host, b.pol, b.pct = in.capacity.cpu, in.eff.cpuPct, in.sys.cpu, in.reserved.cpu, in.hostHP.cpu, in.eff.cpuPol, in.eff.batchCPUPct
+		kube = in.kubeRes.cpu
 	} else {
 		b.capv, reclaim, sys, res, host, b.pol, b.pct = in.capacity.mem, in.eff.memPct, in.sys.mem, in.reserved.mem, in.hostHP.mem, in.eff.memPol, in.eff.batchMemPct
+		kube = in.kubeRes.mem
 	}
 	b.margin = b.capv * (100 - reclaim) / 100
 	b.sysOrRes = nrMaxI(sys, res)
+	b.annoExtra = b.sysOrRes - nrMaxI(sys, kube)
 	b.host = b.sysOrRes - nrMaxI(sys-host, res)
 	b.sysExtra = b.sysOrRes - res
 	for i := range in.cons {
@@ -328,7 +338,7 @@ func (b *nrBound) classify(v, slack int64) string {
 		name string
 		term int64
 	}{{"pod-without-metric-not-charged", b.noMetric}, {"dangling-metric-not-charged", b.dangling}, {"system-usage-not-charged", b.sysExtra},
-		{"host-app-not-charged", b.host}, {"margin-not-charged", b.margin}}
+		{"host-app-not-charged", b.host}, {"reservation-annotation-not-charged", b.annoExtra}, {"margin-not-charged", b.margin}}
 	for _, c := range cands {
 		if d := v - nrMax0(b.bound+c.term); c.term > 0 && d >= -1 && d <= 1 {
 			return c.name
@@ -521,6 +531,9 @@ func (s *nrSim) checkNodeValues(name, mode string, node *corev1.Node, in *nrInpu
 		}
 		if b.bound <= 0 {
 			r.Probe("bound-clamped-at-zero")
+		}
+		if b.annoExtra > 0 {
+			r.Probe("bound-with-reservation-annotation-dominant/policy=" + in.annoPolicy)
 		}
 	}
 }
